@@ -122,3 +122,49 @@ def only_harmless_categories_in_tree(cx, b1, b2, opts=()):
         return False
     h = abidiff(cx, b1, b2, list(opts) + ["--harmless"])
     return not cbuild.crashed(h) and bool(h.rc & R.STATUS_CHANGE) and not h.rc & R.STATUS_ERROR
+
+
+HARMFUL_CATS = {"SIZE_OR_OFFSET_CHANGE_CATEGORY", "VIRTUAL_MEMBER_CHANGE_CATEGORY", "FN_PARM_ADD_REMOVE_CHANGE_CATEGORY"}
+
+
+def subtree_has_nothing_reportable(cx, b1, b2, opts, iface):
+    """True when, in the tool's own diff tree, the sub-tree of the function / variable diff node of `iface` holds no node
+    that carries a harmful category without being suppressed (SUPPRESSED_CATEGORY / PRIVATE_TYPE_CATEGORY): by the tool's
+    own categorisation there is then nothing under that interface that the default reporter may show."""
+    t = abidiff(cx, b1, b2, list(opts) + ["--dump-diff-tree"])
+    if cbuild.crashed(t):
+        return False
+    nodes = diff_tree(t.etext())
+    rx = re.compile(r"(?<![A-Za-z0-9_])" + re.escape(iface) + r"(?![A-Za-z0-9_])")
+    found = False
+    for k, (ind, kind, subj, cats) in enumerate(nodes):
+        if kind not in ("function_decl_diff", "function_diff", "var_diff") or not rx.search(subj):
+            continue
+        if any(nodes[j][0] < ind and nodes[j][1] in ("class_diff", "union_diff") for j in range(k)) and kind == "var_diff" and ind > 2:
+            continue    # a data member, not the variable itself
+        found = True
+        end = next((j for j in range(k + 1, len(nodes)) if nodes[j][0] <= ind), len(nodes))
+        sub = nodes[k:end]
+        SUP = {"SUPPRESSED_CATEGORY", "PRIVATE_TYPE_CATEGORY"}
+        for j, n in enumerate(sub):
+            harm = n[3] & HARMFUL_CATS
+            if not harm or n[3] & SUP:
+                continue
+            # below a suppressed node nothing is reported
+            anc, lvl = False, n[0]
+            for q in range(j - 1, -1, -1):
+                if sub[q][0] < lvl:
+                    lvl = sub[q][0]
+                    if sub[q][3] & SUP and q > 0:
+                        anc = True
+                        break
+            if anc:
+                continue
+            # categories are propagated upwards: only the node where a harmful category originates (none of its
+            # children carries it) stands for a change of its own
+            kids_end = next((q for q in range(j + 1, len(sub)) if sub[q][0] <= n[0]), len(sub))
+            kids = [c for c in sub[j + 1:kids_end] if c[0] == n[0] + 2]
+            if any(harm & c[3] for c in kids):
+                continue
+            return False
+    return found
